@@ -146,21 +146,25 @@ theorem completes_complete (q : Assign) (Q : List Nat) (m : PM) (hQ : ∀ x ∈ 
   · rw [get_complete q Q m hQ, if_pos hy]; simp
   · rw [get_complete q Q m hQ, if_neg hy]
 
-/-- a model that assigns exactly `Q` is the completion of the empty model by its own reading -/
-theorem completes_new_eq {n : Nat} {Q : List Nat} {m : PM} (hQ : ∀ x ∈ Q, x < n)
-    (h : Completes (PM.new n) Q m) : m = complete (PM.new n) Q m.toAssign := by
-  have hQ' : ∀ x ∈ Q, x < (PM.new n).vals.length := by simpa using hQ
+/-- a model that completes `m` over `Q` is the completion of `m` by its own reading -/
+theorem completes_eq {m m' : PM} {Q : List Nat} (hQ : ∀ x ∈ Q, x < m.vals.length)
+    (h : Completes m Q m') : m' = complete m Q m'.toAssign := by
   apply PM.ext_get
   · rw [length_complete, h.1]
   · intro y
-    rw [get_complete _ Q _ hQ']
+    rw [get_complete _ Q _ hQ]
     by_cases hy : y ∈ Q
     · have := (h.2 y).1 hy
       simp only [hy, if_true, PM.toAssign]
-      cases hg : m.get y with
+      cases hg : m'.get y with
       | none => exact absurd hg this
       | some b => cases b <;> simp
     · rw [if_neg hy]; exact (h.2 y).2 hy
+
+/-- a model that assigns exactly `Q` is the completion of the empty model by its own reading -/
+theorem completes_new_eq {n : Nat} {Q : List Nat} {m : PM} (hQ : ∀ x ∈ Q, x < n)
+    (h : Completes (PM.new n) Q m) : m = complete (PM.new n) Q m.toAssign :=
+  completes_eq (by simpa using hQ) h
 
 theorem fromLitvec_nil (n : Nat) : PM.fromLitvec [] n = PM.new n := rfl
 
@@ -1219,11 +1223,37 @@ theorem dependsOn_restrictTo {vars : List Nat} {p : Ptr} (hsub : ∀ v ∈ p.var
 
 /-! ### maximum expected utility -/
 
-/-- along the order: every variable is a decision variable, or its two weights sum to the unit,
-or no decision variable sits at or below it -/
-def UtilAfter (w : Weights EU) (D : List Nat) : List Nat → Prop
+/-- along the order: every variable is a query variable, or its two weights sum to one, or no
+query variable sits at or below it -/
+def QueryAfter (S : SROps α) (w : Weights α) (Q : List Nat) : List Nat → Prop
   | [] => True
-  | v :: vs => (v ∈ D ∨ euAdd (w v).1 (w v).2 = euOne ∨ ∀ u ∈ v :: vs, u ∉ D) ∧ UtilAfter w D vs
+  | v :: vs => (v ∈ Q ∨ S.add (w v).1 (w v).2 = S.one ∨ ∀ u ∈ v :: vs, u ∉ Q) ∧ QueryAfter S w Q vs
+
+theorem orderOK_of_queryAfter {S : SROps α} {w : Weights α} {Q : List Nat} {c : PM}
+    (hc : ∀ x, c.get x ≠ none ↔ x ∈ Q) : ∀ (l : List Nat), QueryAfter S w Q l → OrderOK S w c l
+  | [], _ => trivial
+  | v :: vs, h => by
+    refine ⟨?_, orderOK_of_queryAfter hc vs h.2⟩
+    rcases h.1 with h1 | h1 | h1
+    · exact Or.inl ((hc v).mpr h1)
+    · exact Or.inr (Or.inl h1)
+    · refine Or.inr (Or.inr fun u hu => ?_)
+      apply Classical.byContradiction
+      intro hne
+      exact h1 u hu ((hc u).mp hne)
+
+theorem queryAfter_of_normalised {S : SROps α} {w : Weights α} {Q : List Nat} : ∀ (l : List Nat),
+    (∀ v ∈ l, v ∉ Q → S.add (w v).1 (w v).2 = S.one) → QueryAfter S w Q l
+  | [], _ => trivial
+  | v :: vs, h => by
+    refine ⟨?_, queryAfter_of_normalised vs (fun u hu => h u (List.mem_cons_of_mem _ hu))⟩
+    by_cases hv : v ∈ Q
+    · exact Or.inl hv
+    · exact Or.inr (Or.inl (h v List.mem_cons_self hv))
+
+/-- MEU reading: every variable of the order is a decision variable, or its two weights sum to
+the unit of the semiring, or no decision variable sits at or below it -/
+abbrev UtilAfter (w : Weights EU) (D : List Nat) (order : List Nat) : Prop := QueryAfter euOps w D order
 
 /-- the weight domain of MEU: probabilities and utilities non-negative, decision variables of
 unit weight, every non-normalised (utility-bearing) variable ordered after all decision
@@ -1232,19 +1262,6 @@ structure MeuWeights (w : Weights EU) (D order : List Nat) : Prop where
   nonneg : ∀ v, (0 ≤ (w v).1.p ∧ 0 ≤ (w v).1.u) ∧ (0 ≤ (w v).2.p ∧ 0 ≤ (w v).2.u)
   unit : ∀ x ∈ D, w x = (euOne, euOne)
   after : UtilAfter w D order
-
-theorem orderOK_of_utilAfter {w : Weights EU} {D : List Nat} {c : PM} (hc : ∀ x, c.get x ≠ none ↔ x ∈ D) :
-    ∀ (l : List Nat), UtilAfter w D l → OrderOK euBB.toSROps w c l
-  | [], _ => trivial
-  | v :: vs, h => by
-    refine ⟨?_, orderOK_of_utilAfter hc vs h.2⟩
-    rcases h.1 with h1 | h1 | h1
-    · exact Or.inl ((hc v).mpr h1)
-    · exact Or.inr (Or.inl h1)
-    · refine Or.inr (Or.inr fun u hu => ?_)
-      apply Classical.byContradiction
-      intro hne
-      exact h1 u hu ((hc u).mp hne)
 
 /-- the invariant of the MEU search: only decision variables are ever assigned -/
 def MeuInv (n : Nat) (D : List Nat) (m : PM) : Prop := m.vals.length = n ∧ ∀ x, m.get x ≠ none → x ∈ D
@@ -1303,7 +1320,7 @@ theorem meu_eval_complete {w : Weights EU} {D order : List Nat} (hw : MeuWeights
     simp only [wsel, hwl]; split <;> rfl
   rw [hlp]
   have h1 : ∀ x : EU, euBB.mul euOne x = x := fun x => Bdd.sr_one_mul euLaws x
-  rw [h1, relax_sum_pathCount euLaws w c hp hnd (orderOK_of_utilAfter hget order hw.after) false
+  rw [h1, relax_sum_pathCount euLaws w c hp hnd (orderOK_of_queryAfter hget order hw.after) false
     (fun _ => false), meuValue, pathCountX_eq euOps w order _ _ (dependsOn_restrictTo hp.vars_sub D _)]
   congr 1
   funext b
@@ -1356,9 +1373,376 @@ theorem meu_opt {w : Weights EU} {D order : List Nat} (hw : MeuWeights w D order
   · intro y hy
     obtain ⟨q, hq, rfl⟩ := List.mem_map.mp hy
     have h1 := H.ub q (consistent_new n D q)
-    simp only at h1
     rwa [meu_eval_complete hw hnd hp (completes_complete q D _ hD'),
       toAssign_complete_new hD hq] at h1
+  · exact List.mem_map.mpr ⟨_, toAssign_mem_queryAssignments hc, by rw [hval]⟩
+
+/-! ## the generic branch and bound (`bb_h`) -/
+
+/-- What the search of `bb_h` needs of `choose`, `==` and `PartialOrd::le`, relative to the
+bounding order `R` and a preorder `T` ("is no better than", the order `choose` maximises):
+`==` is equality, `choose` returns one of its arguments and a `T`-upper bound of both, and
+`ub ≤ lb` licenses pruning (everything `R`-below `ub` is `T`-no-better than `lb`). -/
+structure ChooseLaws (B : BBOps α) (R T : α → α → Prop) : Prop where
+  beq_iff : ∀ a b, B.beq a b = true ↔ a = b
+  choose_or : ∀ a b, B.choose a b = a ∨ B.choose a b = b
+  choose_left : ∀ a b, T a (B.choose a b)
+  choose_right : ∀ a b, T b (B.choose a b)
+  t_refl : ∀ a, T a a
+  t_trans : ∀ {a b c}, T a b → T b c → T a c
+  prune : ∀ {ub lb c}, B.le ub lb = true → R c ub → T c lb
+
+/-- what `bb_h` returns -/
+structure BbRes (T : α → α → Prop) (ev : PM → List Nat → α) (lb : α) (best : PM)
+    (Q : List Nat) (asg : PM) (r : α × PM) : Prop where
+  ge_lb : T lb r.1
+  ub : ∀ q, Consistent asg Q q → T (ev (complete asg Q q) []) r.1
+  att : r = (lb, best) ∨ (Completes asg Q r.2 ∧ r.1 = ev r.2 [])
+
+section bbsearch
+variable {T : α → α → Prop} {p : Ptr} {w : Weights α} {N : Nat}
+
+/-- one iteration of the loop of `bb_h` on the branch `x := b`: the state stays attained and
+`T`-above the incoming bound, does not get worse, and now dominates the whole branch -/
+theorem bbStep_ok (C : ChooseLaws B R T) {rest : List Nat} {x : Nat} {asg : PM} (hx : x < asg.vals.length)
+    (hasg : asg.vals.length = N)
+    (hub : ∀ m q, m.vals.length = N → Consistent m rest q →
+      R (bbUb B p (complete m rest q) [] w) (bbUb B p m rest w))
+    (ih : ∀ lb best m, m.vals.length = N →
+      BbRes T (fun m bits => bbUb B p m bits w) lb best rest m (bbH B p w lb best rest m))
+    (curLb : α) (curBest : PM) (st : α × PM) (b : Bool)
+    (h1 : T curLb st.1)
+    (h2 : st = (curLb, curBest) ∨
+      (Completes asg (x :: rest) st.2 ∧ st.1 = bbUb B p st.2 [] w)) :
+    let st' := bbStep B (fun lb best pm => bbH B p w lb best rest pm) curLb curBest st
+      (bbUb B p (asg.set x b) rest w) (asg.set x b)
+    T curLb st'.1 ∧
+    (st' = (curLb, curBest) ∨ (Completes asg (x :: rest) st'.2 ∧ st'.1 = bbUb B p st'.2 [] w)) ∧
+    T st.1 st'.1 ∧
+    (∀ q, Consistent (asg.set x b) rest q →
+      T (bbUb B p (complete (asg.set x b) rest q) [] w) st'.1) := by
+  have hlen : (asg.set x b).vals.length = N := by rw [PM.length_set, hasg]
+  simp only [bbStep]
+  by_cases hle : B.le (bbUb B p (asg.set x b) rest w) curLb = true
+  · -- pruned
+    simp only [hle, Bool.not_true, Bool.false_eq_true, if_false]
+    exact ⟨h1, h2, C.t_refl _, fun q hq => C.t_trans (C.prune hle (hub _ q hlen hq)) h1⟩
+  · have hle' : (!B.le (bbUb B p (asg.set x b) rest w) curLb) = true := by simpa using hle
+    simp only [hle', if_true]
+    have H := ih st.1 st.2 (asg.set x b) hlen
+    generalize bbH B p w st.1 st.2 rest (asg.set x b) = r at H ⊢
+    by_cases hbeq : B.beq (B.choose curLb r.1) r.1 = true
+    · simp only [hbeq, if_true]
+      refine ⟨C.t_trans h1 H.ge_lb, ?_, H.ge_lb, H.ub⟩
+      rcases H.att with e | ⟨hc, hv⟩
+      · have : r = st := e
+        rw [this]; exact h2
+      · exact Or.inr ⟨hc.step hx, hv⟩
+    · simp only [hbeq, Bool.false_eq_true, if_false]
+      have hne : B.choose curLb r.1 ≠ r.1 := fun e => hbeq ((C.beq_iff _ _).mpr e)
+      have hch : B.choose curLb r.1 = curLb := by
+        rcases C.choose_or curLb r.1 with e | e
+        · exact e
+        · exact absurd e hne
+      have hr : T r.1 curLb := by have := C.choose_right curLb r.1; rwa [hch] at this
+      exact ⟨C.t_refl _, Or.inl trivial, C.t_trans H.ge_lb hr, fun q hq => C.t_trans (H.ub q hq) hr⟩
+
+/-- **`bbH_opt`** -/
+theorem bbH_opt (C : ChooseLaws B R T) {P : Nat → Prop} (hPN : ∀ x, P x → x < N)
+    (hub : ∀ bits m q, m.vals.length = N → (∀ x ∈ bits, P x) → Consistent m bits q →
+      R (bbUb B p (complete m bits q) [] w) (bbUb B p m bits w)) :
+    ∀ (Q : List Nat), (∀ x ∈ Q, P x) → ∀ (lb : α) (best asg : PM), asg.vals.length = N →
+    BbRes T (fun m bits => bbUb B p m bits w) lb best Q asg (bbH B p w lb best Q asg)
+  | [], _, lb, best, asg, _ => by
+    simp only [bbH]
+    by_cases hb : B.beq lb (B.choose lb (bbUb B p asg [] w)) = true
+    · simp only [hb, if_true]
+      have e := (C.beq_iff _ _).mp hb
+      have := C.choose_right lb (bbUb B p asg [] w)
+      rw [← e] at this
+      exact ⟨C.t_refl _, fun q _ => this, Or.inl rfl⟩
+    · simp only [hb, Bool.false_eq_true, if_false]
+      have hne : B.choose lb (bbUb B p asg [] w) ≠ lb := fun e => hb ((C.beq_iff _ _).mpr e.symm)
+      have hch : B.choose lb (bbUb B p asg [] w) = bbUb B p asg [] w := by
+        rcases C.choose_or lb (bbUb B p asg [] w) with e | e
+        · exact absurd e hne
+        · exact e
+      have := C.choose_left lb (bbUb B p asg [] w)
+      rw [hch] at this
+      exact ⟨this, fun q _ => C.t_refl _, Or.inr ⟨Completes.refl asg, rfl⟩⟩
+  | x :: rest, hQ, lb, best, asg, hasg => by
+    have hrest : ∀ z ∈ rest, P z := fun z hz => hQ z (List.mem_cons_of_mem _ hz)
+    have hx : x < asg.vals.length := by rw [hasg]; exact hPN x (hQ x List.mem_cons_self)
+    have ih := bbH_opt C hPN hub rest hrest
+    have hub' : ∀ m q, m.vals.length = N → Consistent m rest q →
+        R (bbUb B p (complete m rest q) [] w) (bbUb B p m rest w) :=
+      fun m q hm hq => hub rest m q hm hrest hq
+    -- both orders of the two branches
+    have two : ∀ b1 b2 : Bool, (∀ b, b = b1 ∨ b = b2) →
+        BbRes T (fun m bits => bbUb B p m bits w) lb best (x :: rest) asg
+          (bbStep B (fun lb best pm => bbH B p w lb best rest pm) lb best
+            (bbStep B (fun lb best pm => bbH B p w lb best rest pm) lb best (lb, best)
+              (bbUb B p (asg.set x b1) rest w) (asg.set x b1))
+            (bbUb B p (asg.set x b2) rest w) (asg.set x b2)) := by
+      intro b1 b2 hb
+      obtain ⟨a1, a2, _, a4⟩ := bbStep_ok C hx hasg hub' ih lb best (lb, best) b1 (C.t_refl _) (Or.inl rfl)
+      generalize bbStep B (fun lb best pm => bbH B p w lb best rest pm) lb best (lb, best)
+        (bbUb B p (asg.set x b1) rest w) (asg.set x b1) = s1 at a1 a2 a4 ⊢
+      obtain ⟨c1, c2, c3, c4⟩ := bbStep_ok C hx hasg hub' ih lb best s1 b2 a1 a2
+      generalize bbStep B (fun lb best pm => bbH B p w lb best rest pm) lb best s1
+        (bbUb B p (asg.set x b2) rest w) (asg.set x b2) = s2 at c1 c2 c3 c4 ⊢
+      refine ⟨c1, fun q hq => ?_, c2⟩
+      rw [complete]
+      have hq' := hq.step hx
+      rcases hb (q x) with e | e
+      · rw [e] at hq' ⊢; exact C.t_trans (a4 q hq') c3
+      · rw [e] at hq' ⊢; exact c4 q hq'
+    simp only [bbH]
+    split
+    · exact two true false (fun b => by cases b <;> simp)
+    · exact two false true (fun b => by cases b <;> simp)
+
+end bbsearch
+
+/-! ### top level of `bb` -/
+
+theorem bb_top {T : α → α → Prop} {ev : PM → List Nat → α} {n : Nat} {Q : List Nat}
+    (hQ : ∀ x ∈ Q, x < n) {r : α × PM}
+    (H : BbRes T ev (ev (complete (PM.new n) Q (fun _ => true)) [])
+      (complete (PM.new n) Q (fun _ => true)) Q (PM.new n) r) :
+    Completes (PM.new n) Q r.2 ∧ r.1 = ev r.2 [] := by
+  have hQ' : ∀ x ∈ Q, x < (PM.new n).vals.length := by simpa using hQ
+  rcases H.att with e | ⟨hc, hv⟩
+  · rw [e]; exact ⟨completes_complete _ Q _ hQ', rfl⟩
+  · exact ⟨hc, hv⟩
+
+theorem bb_unfold (B : BBOps α) (p : Ptr) (Q : List Nat) (n : Nat) (w : Weights α) :
+    bb B p Q n w = bbH B p w (bbUb B p (complete (PM.new n) Q (fun _ => true)) [] w)
+      (complete (PM.new n) Q (fun _ => true)) Q (PM.new n) := by
+  simp only [bb, fromLitvec_map_true, fromLitvec_nil]
+
+/-- the function the fold sees with the query variables assigned is the restricted function -/
+theorem restrict_eq {n : Nat} {Q : List Nat} {c : PM} (hc : Completes (PM.new n) Q c) (p : Ptr) :
+    (fun b => xor false (p.eval (overridePM c b))) = restrictTo Q c.toAssign p.eval := by
+  have hget := completes_new_get hc
+  funext b
+  simp only [restrictTo, Bool.false_bne]
+  congr 1
+  funext x
+  by_cases hx : x ∈ Q
+  · have hc' : Q.contains x = true := by simpa using hx
+    rw [if_pos hc']
+    cases hg : c.get x with
+    | none => exact absurd hg ((hget x).mpr hx)
+    | some bv => rw [overridePM_assigned hg, c.toAssign_agrees x bv hg]
+  · have hc' : ¬ Q.contains x = true := by simpa using hx
+    have hg : c.get x = none := by
+      apply Classical.byContradiction; intro hne; exact hx ((hget x).mp hne)
+    rw [if_neg hc']; simp [overridePM, hg]
+
+theorem litProd_completes (hS : S.Laws) (w : Weights α) {n : Nat} {Q : List Nat} (hQ : ∀ x ∈ Q, x < n)
+    {c : PM} (hc : Completes (PM.new n) Q c) : litProd S w c = qWeight S w c.toAssign Q [] := by
+  have hQ' : ∀ x ∈ Q, x < (PM.new n).vals.length := by simpa using hQ
+  conv => lhs; rw [completes_new_eq hQ hc]
+  rw [litProd_complete hS w c.toAssign Q [] (PM.new n) hQ' (fun x => by simp [PM.get_new])
+    (fun x b hx => by rw [PM.get_new] at hx; cases hx), litProd_new, Bdd.sr_one_mul hS]
+
+/-- **`eval_complete`, path-count form** (reduced ordered diagram; arbitrary weights except that a
+non-normalised non-query variable has no query variable below it) -/
+theorem bbUb_complete_pathCount (hS : B.toSROps.Laws) (w : Weights α) {order : List Nat} {p : Ptr}
+    (hnd : order.Nodup) (hp : Robdd order p) {n : Nat} {Q : List Nat} (hQ : ∀ x ∈ Q, x < n)
+    (hafter : QueryAfter B.toSROps w Q order) {c : PM} (hc : Completes (PM.new n) Q c) :
+    bbUb B p c [] w = bbValue B.toSROps p.eval Q order w c.toAssign := by
+  rw [bbUb_eq hS, litProd_completes hS w hQ hc,
+    relax_sum_pathCount hS w c hp hnd (orderOK_of_queryAfter (completes_new_get hc) order hafter) false
+      (fun _ => false), restrict_eq hc p, bbValue,
+    pathCountX_eq _ w order _ _ (dependsOn_restrictTo hp.vars_sub Q _)]
+
+/-- the weight domain of the generic branch and bound -/
+structure BbWeights (B : BBOps α) (R : α → α → Prop) (w : Weights α) (Q order : List Nat) : Prop where
+  nonneg : ∀ v, R B.zero (w v).1 ∧ R B.zero (w v).2
+  join : ∀ x ∈ Q, ∀ b, JoinWeight B R (wsel w x b)
+  after : QueryAfter B.toSROps w Q order
+
+/-- **`bb_opt`**: for a `BBSemiring` satisfying `BBLaws` and `ChooseLaws`, `bb` returns a value
+that is `T`-maximal among the values of all query assignments, together with a model that
+assigns exactly the query variables and attains it. -/
+theorem bb_opt {T : α → α → Prop} (L : BBLaws B R) (C : ChooseLaws B R T) {w : Weights α}
+    {Q order : List Nat} (hw : BbWeights B R w Q order) {p : Ptr} (hnd : order.Nodup)
+    (hp : Robdd order p) {n : Nat} (hQ : ∀ x ∈ Q, x < n) :
+    (∀ q ∈ queryAssignments Q, T (bbValue B.toSROps p.eval Q order w q) (bb B p Q n w).1) ∧
+    Completes (PM.new n) Q (bb B p Q n w).2 ∧
+    (bb B p Q n w).2.toAssign ∈ queryAssignments Q ∧
+    bbValue B.toSROps p.eval Q order w (bb B p Q n w).2.toAssign = (bb B p Q n w).1 := by
+  have hQ' : ∀ x ∈ Q, x < (PM.new n).vals.length := by simpa using hQ
+  have H := bbH_opt (T := T) (p := p) (w := w) (N := n) C (P := fun x => x < n ∧ x ∈ Q) (fun x h => h.1)
+    (fun bits m q hm hbits hq => ub_sound L w hw.nonneg p (hp.free hnd) q bits m
+      (fun x hx => by rw [hm]; exact (hbits x hx).1) (fun x hx b => hw.join x (hbits x hx).2 b) hq)
+    Q (fun x hx => ⟨hQ x hx, hx⟩) (bbUb B p (complete (PM.new n) Q (fun _ => true)) [] w)
+    (complete (PM.new n) Q (fun _ => true)) (PM.new n) (PM.length_new n)
+  rw [← bb_unfold] at H
+  generalize bb B p Q n w = r at H ⊢
+  obtain ⟨hc, hv⟩ := bb_top hQ H
+  have hval : bbValue B.toSROps p.eval Q order w r.2.toAssign = r.1 := by
+    rw [hv]; exact (bbUb_complete_pathCount L.sr w hnd hp hQ hw.after hc).symm
+  refine ⟨fun q hq => ?_, hc, toAssign_mem_queryAssignments hc, hval⟩
+  have h1 := H.ub q (consistent_new n Q q)
+  rwa [bbUb_complete_pathCount L.sr w hnd hp hQ hw.after (completes_complete q Q _ hQ'),
+    toAssign_complete_new hQ hq] at h1
+
+/-! ### the `choose`-fold of the oracle -/
+
+theorem foldl_choose_mem {T : α → α → Prop} (C : ChooseLaws B R T) : ∀ (xs : List α) (x : α),
+    xs.foldl B.choose x ∈ x :: xs
+  | [], x => by simp
+  | y :: ys, x => by
+    have ih := foldl_choose_mem C ys (B.choose x y)
+    simp only [List.foldl_cons]
+    rcases List.mem_cons.mp ih with e | e
+    · rw [e]
+      rcases C.choose_or x y with e' | e' <;> simp [e']
+    · exact List.mem_cons_of_mem _ (List.mem_cons_of_mem _ e)
+
+theorem foldl_choose_ub {T : α → α → Prop} (C : ChooseLaws B R T) : ∀ (xs : List α) (x y : α),
+    y ∈ x :: xs → T y (xs.foldl B.choose x)
+  | [], x, y, h => by simp at h; rw [h]; exact C.t_refl _
+  | z :: zs, x, y, h => by
+    simp only [List.foldl_cons]
+    have ih := foldl_choose_ub C zs (B.choose x z)
+    rcases List.mem_cons.mp h with e | e
+    · rw [e]; exact C.t_trans (C.choose_left x z) (ih _ List.mem_cons_self)
+    · rcases List.mem_cons.mp e with e' | e'
+      · rw [e']; exact C.t_trans (C.choose_right x z) (ih _ List.mem_cons_self)
+      · exact ih y (List.mem_cons_of_mem _ e')
+
+/-- the returned value and the oracle's `choose`-fold are `T`-equivalent -/
+theorem bb_opt_spec {T : α → α → Prop} (L : BBLaws B R) (C : ChooseLaws B R T) {w : Weights α}
+    {Q order : List Nat} (hw : BbWeights B R w Q order) {p : Ptr} (hnd : order.Nodup)
+    (hp : Robdd order p) {n : Nat} (hQ : ∀ x ∈ Q, x < n) :
+    T (bbSpec B.toSROps B.choose p.eval Q order w) (bb B p Q n w).1 ∧
+    T (bb B p Q n w).1 (bbSpec B.toSROps B.choose p.eval Q order w) := by
+  obtain ⟨h1, _, h3, h4⟩ := bb_opt L C hw hnd hp hQ
+  have hmem : (bb B p Q n w).1 ∈ (queryAssignments Q).map (bbValue B.toSROps p.eval Q order w) :=
+    List.mem_map.mpr ⟨_, h3, h4⟩
+  have hall : ∀ y ∈ (queryAssignments Q).map (bbValue B.toSROps p.eval Q order w),
+      T y (bb B p Q n w).1 := by
+    intro y hy
+    obtain ⟨q, hq, rfl⟩ := List.mem_map.mp hy
+    exact h1 q hq
+  simp only [bbSpec]
+  generalize (queryAssignments Q).map (bbValue B.toSROps p.eval Q order w) = l at hmem hall
+  cases l with
+  | nil => simp at hmem
+  | cons x xs => exact ⟨hall _ (foldl_choose_mem C xs x), foldl_choose_ub C xs x _ hmem⟩
+
+/-! ### the two shipped instances -/
+
+theorem realChooseLaws : ChooseLaws realBB (fun a b : Rat => a ≤ b) (fun a b : Rat => a ≤ b) where
+  beq_iff a b := by simp [realBB]
+  choose_or a b := by simp only [realBB, realChoose, realJoin]; grind
+  choose_left a b := by simp only [realBB, realChoose, realJoin]; grind
+  choose_right a b := by simp only [realBB, realChoose, realJoin]; grind
+  t_refl a := Rat.le_refl
+  t_trans h1 h2 := Rat.le_trans h1 h2
+  prune {ub lb c} h hc := by
+    have : ub ≤ lb := by simpa [realBB] using h
+    exact Rat.le_trans hc this
+
+/-- `choose` on `ExpectedUtility` maximises the utility component -/
+def euT (a b : EU) : Prop := a.u ≤ b.u
+
+theorem euLe_u {a b : EU} (h : euLe a b = true) : a.u ≤ b.u := by
+  simp only [euLe] at h
+  split at h
+  · rename_i h'; exact Rat.le_of_lt (euPartialCmp_lt.mp h').2
+  · rename_i h'; rw [euPartialCmp_eq.mp h']; exact Rat.le_refl
+  · cases h
+
+theorem euChooseLaws : ChooseLaws euBB euR euT where
+  beq_iff a b := by simp [euBB]
+  choose_or a b := by simp only [euBB, euChoose]; split <;> simp
+  choose_left a b := by simp only [euBB, euChoose, euT]; split <;> grind
+  choose_right a b := by simp only [euBB, euChoose, euT]; split <;> grind
+  t_refl a := Rat.le_refl
+  t_trans h1 h2 := Rat.le_trans h1 h2
+  prune h hc := Rat.le_trans hc.2 (euLe_u h)
+
+theorem MapWeights.bbWeights {w : Weights Rat} {Q order : List Nat} (h : MapWeights w Q order) :
+    BbWeights realBB (fun a b : Rat => a ≤ b) w Q order where
+  nonneg := h.nonneg
+  join := h.joinWeight
+  after := queryAfter_of_normalised order (fun v hv hvQ => h.normalised v hv hvQ)
+
+theorem MeuWeights.bbWeights {w : Weights EU} {D order : List Nat} (h : MeuWeights w D order) :
+    BbWeights euBB euR w D order where
+  nonneg v := ⟨euR_zero.mpr (h.nonneg v).1, euR_zero.mpr (h.nonneg v).2⟩
+  join x hx b := by
+    have e : wsel w x b = euOne := by simp only [wsel, h.unit x hx]; split <;> rfl
+    rw [e]; exact euJoinWeight_one
+  after := h.after
+
+/-- `bb` at `RealSemiring` computes the marginal MAP (same statement as `marginalMap_opt`) -/
+theorem bb_real_opt {w : Weights Rat} {Q vars : List Nat} (hw : MapWeights w Q vars) {p : Ptr}
+    (hp : p.free) (hnd : vars.Nodup) (hcov : ∀ v ∈ p.vars, v ∈ vars) {n : Nat} (hQ : ∀ x ∈ Q, x < n) :
+    (bb realBB p Q n w).1 = mapSpec p.eval Q vars w ∧
+    Completes (PM.new n) Q (bb realBB p Q n w).2 ∧
+    (bb realBB p Q n w).2.toAssign ∈ queryAssignments Q ∧
+    mapValue p.eval Q (nonQuery vars Q) w (bb realBB p Q n w).2.toAssign = (bb realBB p Q n w).1 := by
+  have hQ' : ∀ x ∈ Q, x < (PM.new n).vals.length := by simpa using hQ
+  have H := bbH_opt (p := p) (w := w) (N := n) realChooseLaws (P := fun x => x < n ∧ x ∈ Q) (fun x h => h.1)
+    (fun bits m q hm hbits hq => ub_sound realBBLaws w hw.nonneg p hp q bits m
+      (fun x hx => by rw [hm]; exact (hbits x hx).1) (fun x hx b => hw.joinWeight x (hbits x hx).2 b) hq)
+    Q (fun x hx => ⟨hQ x hx, hx⟩) (bbUb realBB p (complete (PM.new n) Q (fun _ => true)) [] w)
+    (complete (PM.new n) Q (fun _ => true)) (PM.new n) (PM.length_new n)
+  rw [← bb_unfold] at H
+  generalize bb realBB p Q n w = r at H ⊢
+  obtain ⟨hc, hv⟩ := bb_top hQ H
+  have hval : mapValue p.eval Q (nonQuery vars Q) w r.2.toAssign = r.1 := by
+    rw [hv, ← marginalMapEval_eq]; exact (map_eval_complete hw hp hnd hcov hQ hc).symm
+  refine ⟨?_, hc, toAssign_mem_queryAssignments hc, hval⟩
+  symm
+  apply maxOfList_eq
+  · intro y hy
+    obtain ⟨q, hq, rfl⟩ := List.mem_map.mp hy
+    have h1 := H.ub q (consistent_new n Q q)
+    rwa [← marginalMapEval_eq, map_eval_complete hw hp hnd hcov hQ (completes_complete q Q _ hQ'),
+      toAssign_complete_new hQ hq] at h1
+  · exact List.mem_map.mpr ⟨_, toAssign_mem_queryAssignments hc, hval⟩
+
+/-- `bb` at `ExpectedUtility` computes the maximum expected utility (same statement as `meu_opt`) -/
+theorem bb_eu_opt {w : Weights EU} {D order : List Nat} (hw : MeuWeights w D order) {p : Ptr}
+    (hnd : order.Nodup) (hp : Robdd order p) {n : Nat} (hD : ∀ x ∈ D, x < n) :
+    (bb euBB p D n w).1.u = meuSpec p.eval D order w ∧
+    Completes (PM.new n) D (bb euBB p D n w).2 ∧
+    (bb euBB p D n w).2.toAssign ∈ queryAssignments D ∧
+    meuValue p.eval D order w (bb euBB p D n w).2.toAssign = (bb euBB p D n w).1 := by
+  have hD' : ∀ x ∈ D, x < (PM.new n).vals.length := by simpa using hD
+  have hbw := hw.bbWeights
+  have H := bbH_opt (p := p) (w := w) (N := n) euChooseLaws (P := fun x => x < n ∧ x ∈ D) (fun x h => h.1)
+    (fun bits m q hm hbits hq => ub_sound euBBLaws w hbw.nonneg p (hp.free hnd) q bits m
+      (fun x hx => by rw [hm]; exact (hbits x hx).1) (fun x hx b => hbw.join x (hbits x hx).2 b) hq)
+    D (fun x hx => ⟨hD x hx, hx⟩) (bbUb euBB p (complete (PM.new n) D (fun _ => true)) [] w)
+    (complete (PM.new n) D (fun _ => true)) (PM.new n) (PM.length_new n)
+  rw [← bb_unfold] at H
+  generalize bb euBB p D n w = r at H ⊢
+  obtain ⟨hc, hv⟩ := bb_top hD H
+  have hunit : ∀ {c : PM}, Completes (PM.new n) D c → UnitOn w c [] := by
+    intro c hc x hx
+    rcases hx with hx | hx
+    · exact hw.unit x ((completes_new_get hc x).mp hx)
+    · simp at hx
+  have hval : meuValue p.eval D order w r.2.toAssign = r.1 := by
+    rw [hv, ← euUb_eq_bbUb p _ _ w (hunit hc)]; exact (meu_eval_complete hw hnd hp hc).symm
+  refine ⟨?_, hc, toAssign_mem_queryAssignments hc, hval⟩
+  symm
+  apply maxOfList_eq
+  · intro y hy
+    obtain ⟨q, hq, rfl⟩ := List.mem_map.mp hy
+    have hcq := completes_complete q D _ hD'
+    have h1 := H.ub q (consistent_new n D q)
+    rw [← euUb_eq_bbUb p _ _ w (hunit hcq), meu_eval_complete hw hnd hp hcq,
+      toAssign_complete_new hD hq] at h1
+    exact h1
   · exact List.mem_map.mpr ⟨_, toAssign_mem_queryAssignments hc, by rw [hval]⟩
 
 end Optim
